@@ -91,7 +91,7 @@ let handle (p : string) : string =
     Buffer.contents out ^ "class=" ^ String.concat "/" (List.rev !classes)
   | _ -> "bad-payload"
 
-(* ---- histories: H cap op op ...  with op one of: S[FI][nfi]  P:pop  Rk  R*  A  D (destroy the agent, make a new one)  X:tok ---- *)
+(* ---- histories: H cap op op ...  with op one of: S[FI][nfi]  P:pop  Rk  R*  A  D (destroy the agent, make a new one)  X:tok  L:tok (late reply to the request in flight at the last Abort) ---- *)
 let event_s ((p, u) : (n * bool) * n list) : string =
   let (id, st) = p in
   Printf.sprintf "E%s:%s:%s" (string_of_n id) (bool01 st)
@@ -103,6 +103,7 @@ let handle_h (cap : int) (ops : string list) : string =
   let log = ref [] in          (* newest first *)
   let budget = ref cap in
   let nstart = ref 0 and nabort = ref 0 and nref = ref 0 in
+  let stale = ref None in    (* kind of the request that was in flight at the last Abort *)
   let push x = log := x :: !log in
   let sync_events before =
     let evs = !ss.events in
@@ -129,13 +130,22 @@ let handle_h (cap : int) (ops : string list) : string =
       let act = (match op.[2] with 'f' -> AFull | 'i' -> AInc | _ -> ANone) in
       let running = !ss.ag.on_complete in
       let id = !ss.next_id in
+      stale := None;
       incr nstart; if running then incr nref;
       push ((if running then "Z" else "S") ^ string_of_n id);
       ss := s_start inc act !ss;
       sync_events before
     | 'P' -> pop := parse_pop (String.sub op 2 (String.length op - 2))
-    | 'A' -> incr nabort; push "A"; ss := s_abort !ss; sync_events before
-    | 'D' -> incr nabort; push "D"; ss := s_destroy !ss; sync_events before
+    | 'A' -> incr nabort; push "A";
+      stale := (match call_of !ss.ag with Some _ -> Some !ss.ag.pending | None -> None);
+      ss := s_abort !ss; sync_events before;
+      (match call_of !ss.ag with Some _ -> stale := None | None -> ())
+    | 'L' ->
+      (match !stale with
+       | None -> ()
+       | Some k -> push "L"; stale := None;
+         ss := s_late k (parse_tok (String.sub op 2 (String.length op - 2))) !ss; sync_events before)
+    | 'D' -> incr nabort; stale := None; push "D"; ss := s_destroy !ss; sync_events before
     | 'X' -> ignore (reply_with (Some (parse_tok (String.sub op 2 (String.length op - 2)))))
     | 'R' ->
       let k = if op = "R*" then max_int else ios (String.sub op 1 (String.length op - 1)) in
